@@ -130,7 +130,8 @@ class Run:
         if len(self.violations) < 50:
             self.violations.append({
                 'property': self.prop, 'mechanism': k, 'what': what, 'engine': engine,
-                'seed': self.seed, 'tier': self.tier, 'case': _short(case, 4000),
+                'seed': self.seed, 'tier': self.tier, 'hashseed': os.environ.get('PYTHONHASHSEED', ''),
+                'case': _short(case, 4000),
                 'witness': _short(witness, 6000),
             })
 
